@@ -95,3 +95,51 @@ Example ex_skips :
       [mkRow 0 (-1) 8 70 900 0 0 0 0; mkRow 0 1 8 70 499 0 0 0 0; mkRow 0 1 8 70 500 0 0 0 0]
     = FOk (recs, mkT 3 1 1 1 0 0) /\ length recs = 2%nat.
 Proof. eexists. split; vm_compute; reflexivity. Qed.
+
+(* ---- code-level tie (docs/py2coq.md): the BODIES of <Tool>Record.convert_to_variant_records of the three fusion
+        parsers and of the record loops of the three CLIs, translated from /repo's current source by
+        harness/translate/py2coq.py into coq/Gen/Py_{STARFusion,FusionCatcher,Arriba}Parser.v and
+        coq/Gen/Py_parse_{star_fusion,fusion_catcher,arriba}.v on every run, are extensionally equal to Fusion.convert /
+        Fusion.cli of the respective tool: the per-tool ORDER of the look-ups (which exception escapes), the REF base,
+        the evidence filters, the two except handlers and every tally counter. ---- *)
+From MoPep Require Gen.Py_STARFusionParser Gen.Py_FusionCatcherParser Gen.Py_ArribaParser
+                   Gen.Py_parse_star_fusion Gen.Py_parse_fusion_catcher Gen.Py_parse_arriba.
+From MoPep Require Import Proofs.Py2CoqFusionProofs.
+
+Theorem code_fusion_functions_translated :
+  Py_STARFusionParser.py_star_convert_untranslated = false /\ Py_FusionCatcherParser.py_fc_convert_untranslated = false /\
+  Py_ArribaParser.py_arriba_convert_untranslated = false /\ Py_parse_star_fusion.py_star_cli_untranslated = false /\
+  Py_parse_fusion_catcher.py_fc_cli_untranslated = false /\ Py_parse_arriba.py_arriba_cli_untranslated = false.
+Proof. vm_compute. repeat split. Qed.
+Print Assumptions code_fusion_functions_translated.
+
+Theorem code_star_convert_is_model : forall genes chroms dg ag L R,
+  Py_STARFusionParser.py_star_convert genes chroms dg ag L R = convert Star genes chroms dg ag L R.
+Proof. exact code_star_convert_is_model_l. Qed.
+Print Assumptions code_star_convert_is_model.
+
+(* FusionCatcher: for both arms of the versioned / unversioned gene id test *)
+Theorem code_fc_convert_is_model : forall versioned genes chroms dg ag L R,
+  Py_FusionCatcherParser.py_fc_convert versioned genes chroms dg ag L R = convert FC genes chroms dg ag L R.
+Proof. exact code_fc_convert_is_model_l. Qed.
+Print Assumptions code_fc_convert_is_model.
+
+Theorem code_arriba_convert_is_model : forall genes chroms dg ag L R,
+  Py_ArribaParser.py_arriba_convert genes chroms dg ag L R = convert Arriba genes chroms dg ag L R.
+Proof. exact code_arriba_convert_is_model_l. Qed.
+Print Assumptions code_arriba_convert_is_model.
+
+Theorem code_star_cli_is_model : forall genes chroms o rows,
+  Py_parse_star_fusion.py_star_cli genes chroms o rows = cli Star genes chroms o rows.
+Proof. exact code_py_star_cli_is_model_l. Qed.
+Print Assumptions code_star_cli_is_model.
+
+Theorem code_fc_cli_is_model : forall genes chroms o rows,
+  Py_parse_fusion_catcher.py_fc_cli genes chroms o rows = cli FC genes chroms o rows.
+Proof. exact code_py_fc_cli_is_model_l. Qed.
+Print Assumptions code_fc_cli_is_model.
+
+Theorem code_arriba_cli_is_model : forall genes chroms o rows,
+  Py_parse_arriba.py_arriba_cli genes chroms o rows = cli Arriba genes chroms o rows.
+Proof. exact code_py_arriba_cli_is_model_l. Qed.
+Print Assumptions code_arriba_cli_is_model.
